@@ -277,6 +277,8 @@ def finish(prop, tier, seed, ob, res, t0, assumptions, trusted_extra=(), level="
                          "correspondence harness + Lean driver JSON protocol"] + list(trusted_extra),
         "theorems": [t for t, _ in thms],
         "evaluations": res.evaluations,
+        "programs": max(res.traces, 1),
+        "disagreements_checked": len(res.mismatches) + len(res.failures),
         "distinct_nontrivial": len(res.nontrivial),
         "rule": res.rule,
         "samples": res.samples[:8],
